@@ -608,6 +608,9 @@ func writeEvidence(p *props.Prop, m *h.Result, distinct int64, wall float64, nvi
 			other[k] = v
 		}
 	}
+	if lc := libraryCoverage(); lc != nil {
+		cov["library_statement_coverage"] = lc
+	}
 	cov["hook_states_seen"] = len(states)
 	cov["hook_state_matrix"] = states
 	cov["counters"] = other
@@ -648,4 +651,32 @@ func writeEvidence(p *props.Prop, m *h.Result, distinct int64, wall float64, nvi
 	b, _ := json.MarshalIndent(ev, "", " ")
 	_ = os.MkdirAll(filepath.Join(*fRoot, "evidence"), 0o755)
 	_ = os.WriteFile(filepath.Join(*fRoot, "evidence", p.ID+".json"), b, 0o644)
+}
+
+// libraryCoverage reports, for a build with coverage instrumentation (the
+// thorough tier), which share of the statements of each package of the
+// library the worker processes of this run executed. The workers have exited
+// (and flushed their counters into GOCOVERDIR) when the evidence is written.
+func libraryCoverage() map[string]any {
+	dir := os.Getenv("GOCOVERDIR")
+	if dir == "" {
+		return nil
+	}
+	if ents, err := os.ReadDir(dir); err != nil || len(ents) == 0 {
+		return nil
+	}
+	out, err := exec.Command("go", "tool", "covdata", "percent", "-i="+dir).Output()
+	if err != nil {
+		return map[string]any{"error": err.Error()}
+	}
+	res := map[string]any{}
+	for _, line := range strings.Split(string(out), "\n") {
+		// "<pkg>\t\tcoverage: 93.1% of statements"
+		f := strings.Fields(line)
+		if len(f) >= 3 && f[1] == "coverage:" && strings.Contains(f[0], "theory/sqljson/") {
+			res[strings.TrimPrefix(f[0], "github.com/theory/sqljson/")] = f[2]
+		}
+	}
+	res["note"] = "statements of the library executed by this run's worker processes (go build -cover); the generated parser tables and defensive 'cannot happen' branches account for the remainder"
+	return res
 }
